@@ -248,21 +248,28 @@ def reread_closure(a: int, b: int, c: int, quoted: bool) -> bool:
 SPELLINGS = ["a.txt", "./a.txt", "a.*", ".//a.txt"]
 
 
-def merge_file_patterns(same_path: bool, n2: int, sp1: int, sp2: int) -> bool:
+def merge_file_patterns(same_path: bool, n2: int, sp1: int, sp2: int, between: bool = False) -> bool:
     """repeated file entries (a glob, a literal, a non-canonical spelling such as ./a.txt naming the same file) are merged into one
-    entry: every pattern of every entry is kept and the file is rewritten once
+    entry, also when another file's entry stands between them: every pattern of every entry is kept, the file is rewritten once
     pre: 1 <= n2 <= 2 and 0 <= sp1 <= 3 and 0 <= sp2 <= 3 and sp1 != sp2
     post: _
     """
-    raw = {"version_pattern": "MAJOR.MINOR.PATCH",
-           "file_patterns": {SPELLINGS[sp1]: ["{version}"], (SPELLINGS[sp2] if same_path else "b.txt"): ["v{version}", "{pep440_version}"][:n2]}}
-    fs = MemFS({"a.txt": "", "b.txt": ""})
+    fp = {SPELLINGS[sp1]: ["{version}"]}
+    if between:
+        fp["c.txt"] = ["{version}"]
+    fp[SPELLINGS[sp2] if same_path else "b.txt"] = ["v{version}", "{pep440_version}"][:n2]
+    raw = {"version_pattern": "MAJOR.MINOR.PATCH", "file_patterns": fp}
+    fs = MemFS({"a.txt": "", "b.txt": "", "c.txt": ""})
     saved = config.pl
     config.pl = NS(Path=fs.Path)
     try:
         got = config._compile_file_patterns(raw, True)
     finally:
         config.pl = saved
+    if between:
+        if "c.txt" not in got or len(got["c.txt"]) != 1:
+            return False
+        got = {k: v for k, v in got.items() if k != "c.txt"}
     if same_path:
         return list(got) == ["a.txt"] and [p.raw_pattern for p in got["a.txt"]] == ["MAJOR.MINOR.PATCH", "vMAJOR.MINOR.PATCH", "MAJOR.MINOR.PATCH[PYTAGNUM]"][:1 + n2]
     return sorted(got) == ["a.txt", "b.txt"] and len(got["b.txt"]) == n2 and len(got["a.txt"]) == 1
